@@ -821,3 +821,374 @@ Proof. vm_compute; repeat split; reflexivity. Qed.
 Theorem cdata_control_1_1_refuted :
   wf_text true [1] = true /\ payload (write_cdata fam_utf16 true [1]) = Thrown err_forbidden.
 Proof. vm_compute; split; reflexivity. Qed.
+(* ---- 5. known finding K4: a character reference inside a comment ------------------------------------ *)
+(* "<!--&#8364;-->": the 7 units "&#8364;" are comment text for a reader, not U+20AC *)
+Theorem comment_charref_refuted :
+  payload (write_comment (fam_other rep_ascii) false [8364]) =
+  Ok ([60; 33; 45; 45] ++ [38; 35; 56; 51; 54; 52; 59] ++ [45; 45; 62]).
+Proof. vm_compute. reflexivity. Qed.
+
+(* ---- 5. the "other encoding" writer: unrepresentable characters become decimal references ----------- *)
+Lemma digits_rev_digits : forall fuel n, forallb is_digit (digits_rev fuel n) = true.
+Proof.
+  induction fuel as [|f IH]; intros n; [reflexivity|]. cbn [digits_rev].
+  destruct (n <? 10) eqn:E; cbn [forallb].
+  - unfold is_digit, x_in. lia.
+  - rewrite IH. assert (n mod 10 < 10) by (apply N.mod_lt; lia). unfold is_digit, x_in. lia.
+Qed.
+
+Lemma decimal_digits : forall n, forallb is_digit (decimal n) = true.
+Proof.
+  intros n. unfold decimal. apply forallb_forall. intros x Hx. apply in_rev in Hx.
+  pose proof (digits_rev_digits 20 n) as H. rewrite forallb_forall in H. auto.
+Qed.
+
+Lemma decode_pair_spec : forall hi lo, x_high hi = true -> x_low lo = true ->
+  decode_pair hi lo = 1024 * (hi - 55296 + 64) + (lo - 56320) /\ lo - 56320 < 1024.
+Proof.
+  intros hi lo Hh Hl. unfold decode_pair, sur_sub_hi, sur_shift, sur_sub_lo, sur_add.
+  rewrite N.shiftl_mul_pow2. change (2 ^ 10) with 1024. unfold x_high, x_low, x_in in *. lia.
+Qed.
+
+Lemma units_of_decode : forall hi lo, x_high hi = true -> x_low lo = true ->
+  units_of_cp (decode_pair hi lo) = [hi; lo].
+Proof.
+  intros hi lo Hh Hl. destruct (decode_pair_spec hi lo Hh Hl) as [E B]. unfold units_of_cp.
+  unfold x_high, x_low, x_in in *.
+  destruct (decode_pair hi lo <? 65536) eqn:E1; [lia|].
+  assert (D : (decode_pair hi lo - 65536) / 1024 = hi - 55296).
+  { symmetry. apply N.div_unique with (r := lo - 56320); lia. }
+  assert (M : (decode_pair hi lo - 65536) mod 1024 = lo - 56320).
+  { symmetry. apply N.mod_unique with (q := hi - 55296); lia. }
+  rewrite D, M. f_equal; [lia|]. f_equal. lia.
+Qed.
+
+Lemma decode_char : forall v11 hi lo, x_high hi = true -> x_low lo = true ->
+  xml_char v11 (decode_pair hi lo) = true.
+Proof.
+  intros v11 hi lo Hh Hl. destruct (decode_pair_spec hi lo Hh Hl) as [E B].
+  unfold xml_char, x_high, x_low, x_in in *. destruct v11; lia.
+Qed.
+
+Section OtherFamily.
+  Variable rep : N -> bool.
+  Hypothesis rep_low : forall c, c < 128 -> rep c = true.
+
+  Let F := fam_other rep.
+
+  Lemma payload_o_unit : forall c, payload (o_unit rep c) = Ok (if rep c then [c] else charref c).
+  Proof.
+    intros c. unfold o_unit, o_charref. destruct (rep c); cbn [payload app]; rewrite ?app_nil_r; reflexivity.
+  Qed.
+
+  Lemma payload_o_str : forall l, forallb (fun x => x <? 128) l = true -> payload (o_str rep l) = Ok l.
+  Proof.
+    induction l as [|x l IH]; intros H; [reflexivity|]. cbn [forallb] in H.
+    apply andb_true_iff in H. destruct H as [H1 H2]. unfold o_str in *. cbn [flat_map].
+    rewrite payload_app, payload_o_unit, (IH H2), (rep_low x ltac:(lia)). reflexivity.
+  Qed.
+
+  Lemma payload_o_code_pair : forall hi lo, x_high hi = true -> x_low lo = true ->
+    payload (o_code (decode_pair hi lo)) = Ok [hi; lo].
+  Proof.
+    intros hi lo Hh Hl. destruct (decode_pair_spec hi lo Hh Hl) as [E B]. unfold o_code.
+    unfold other_split_gt, other_pair_guard, other_hi_shift, other_hi_add, other_lo_mask, other_lo_add,
+      other_pair_decrement. unfold x_high, x_low, x_in in *.
+    destruct (65535 <? decode_pair hi lo) eqn:E1; [|lia]. cbn [payload app].
+    rewrite N.shiftr_div_pow2. change (2 ^ 10) with 1024. change 1023 with (N.ones 10).
+    rewrite N.land_ones. change (2 ^ 10) with 1024.
+    assert (D : decode_pair hi lo / 1024 = hi - 55296 + 64).
+    { symmetry. apply N.div_unique with (r := lo - 56320); lia. }
+    assert (M : decode_pair hi lo mod 1024 = lo - 56320).
+    { symmetry. apply N.mod_unique with (q := hi - 55296 + 64); lia. }
+    rewrite D, M. replace (hi - 55296 + 64 + 55232) with hi by lia. replace (lo - 56320 + 56320) with lo by lia.
+    rewrite !N.mod_small by lia. reflexivity.
+  Qed.
+
+  Lemma payload_ncr_other : forall c, payload (ncr F c) = Ok (charref c).
+  Proof.
+    intros c. unfold ncr, F. cbn [f_unit f_str fam_other]. rewrite !payload_app, !payload_o_unit.
+    rewrite !rep_low by lia. rewrite payload_o_str.
+    - unfold charref. cbn [app]. reflexivity.
+    - pose proof (decimal_digits c) as H. apply forallb_forall. intros x Hx. rewrite forallb_forall in H.
+      specialize (H x Hx). unfold is_digit, x_in in H. lia.
+  Qed.
+
+  Lemma leqb_refl : forall l, leqb l l = true.
+  Proof. induction l as [|x l IH]; [reflexivity|]. cbn [leqb]. rewrite N.eqb_refl, IH. reflexivity. Qed.
+
+  Lemma payload_ncr_16 : forall c, payload (ncr fam_utf16 c) = Ok (charref c).
+  Proof.
+    intros c. unfold ncr. cbn [f_unit f_str fam_utf16].
+    rewrite !payload_app, !payload_u16_unit, payload_u16_block. reflexivity.
+  Qed.
+
+  Lemma default_entity_same : forall c,
+    match default_entity F c, default_entity fam_utf16 c with
+    | Some a, Some b => payload a = payload b
+    | None, None => True
+    | _, _ => False
+    end.
+  Proof.
+    intros c. unfold default_entity, F. cbn [f_const fam_other fam_utf16].
+    destruct (c =? 60); [rewrite payload_o_str, payload_u16_block by reflexivity; reflexivity|].
+    destruct (c =? 62); [rewrite payload_o_str, payload_u16_block by reflexivity; reflexivity|].
+    destruct (c =? 38); [rewrite payload_o_str, payload_u16_block by reflexivity; reflexivity|].
+    exact I.
+  Qed.
+
+  Lemma default_escape_same : forall v11 c,
+    payload (default_escape F v11 c) = payload (default_escape fam_utf16 v11 c).
+  Proof.
+    intros v11 c. unfold default_escape. pose proof (default_entity_same c) as H.
+    destruct (default_entity F c), (default_entity fam_utf16 c); try contradiction; [exact H|].
+    destruct (c =? 10).
+    - unfold F. cbn [f_newline fam_other fam_utf16]. rewrite payload_o_str, payload_u16_block by reflexivity. reflexivity.
+    - destruct (p_forbidden v11 c); [reflexivity|]. rewrite payload_ncr_other, payload_ncr_16. reflexivity.
+  Qed.
+
+  Lemma default_attr_escape_same : forall v11 c,
+    payload (default_attr_escape F v11 c) = payload (default_attr_escape fam_utf16 v11 c).
+  Proof.
+    intros v11 c. unfold default_attr_escape. pose proof (default_entity_same c) as H.
+    destruct (default_entity F c), (default_entity fam_utf16 c); try contradiction; [exact H|].
+    destruct (c =? 34).
+    - unfold F. cbn [f_const fam_other fam_utf16]. rewrite payload_o_str, payload_u16_block by reflexivity. reflexivity.
+    - destruct (p_forbidden v11 c); [reflexivity|]. rewrite payload_ncr_other, payload_ncr_16. reflexivity.
+  Qed.
+
+  Lemma ref_shape : forall lit v11 c, xml_char v11 c = true -> c < 65536 -> shape lit v11 c (charref c) = true.
+  Proof.
+    intros lit v11 c Hx Hc. unfold shape. rewrite leqb_refl, Hx. destruct (c <? 65536) eqn:E; [|lia].
+    cbn [andb]. apply orb_true_r.
+  Qed.
+
+  (* writeNormalizedCharBig for a non-surrogate unit above the table *)
+  Lemma big_shape : forall v11 c r, p_range v11 c = true ->
+    x_high c = false -> x_low c = false -> xml_char v11 c = true -> c < 65536 ->
+    exists its e, normalized_big F v11 c r = (its, false) /\ payload its = Ok e /\
+                  shape lit_attr v11 c e = true /\ shape lit_content v11 c e = true.
+  Proof.
+    intros v11 c r Er Hh Hl Hx Hc. unfold normalized_big. destruct (v11 && (c =? 8232)) eqn:E8.
+    - assert (v11 = true /\ c = 8232) as [-> ->] by lia.
+      exists (ncr F 8232), (charref 8232). split; [reflexivity|]. split; [apply payload_ncr_other|].
+      split; apply ref_shape; auto.
+    - unfold F. cbn [f_at fam_other]. unfold o_at, o_at_gen. change (is_high c) with (x_high c). rewrite Hh.
+      destruct (rep c) eqn:Erep.
+      + unfold o_code, other_split_gt. destruct (65535 <? c) eqn:E; [lia|].
+        eexists. exists [c]. split; [reflexivity|]. split; [reflexivity|].
+        pose proof (high_lit _ _ Er E8 Hh Hl Hx) as Hlit. unfold shape. cbn [leqb]. rewrite N.eqb_refl.
+        rewrite Hlit, (lit_attr_content _ _ Hlit). split; reflexivity.
+      + eexists. exists (charref c). split; [reflexivity|]. split.
+        * unfold o_charref. cbn [payload]. rewrite app_nil_r. reflexivity.
+        * split; apply ref_shape; auto.
+  Qed.
+
+  Lemma cso_shape : forall v11 c r,
+    x_high c = false -> x_low c = false -> xml_char v11 c = true -> c < 65536 ->
+    exists its e, content_step F v11 c r = (its, false) /\ payload its = Ok e /\
+                  shape lit_content v11 c e = true.
+  Proof.
+    intros v11 c r Hh Hl Hx Hc. unfold content_step. destruct (p_range v11 c) eqn:Er.
+    - destruct (big_shape v11 c r Er Hh Hl Hx Hc) as (its & e & A & B & _ & D). exists its, e. auto.
+    - assert (Hle : c <= sp_last v11) by (unfold p_range in Er; lia).
+      pose proof (sweep _ _ (sweep_content v11) c Hle) as H. unfold chk_content in H.
+      rewrite Er, Hx in H. cbn [negb orb] in H. unfold cs, content_step in H. rewrite Er in H.
+      destruct (negb (p_content v11 c)) eqn:Ec; cbn [fst] in H.
+      + eexists. eexists. split; [reflexivity|]. unfold F. cbn [f_unit fam_other]. rewrite payload_o_unit.
+        split; [reflexivity|]. destruct (rep c); [exact H | apply ref_shape; auto].
+      + eexists. rewrite <- default_escape_same in H.
+        destruct (payload (default_escape F v11 c)) as [e| |] eqn:E; try discriminate.
+        exists e. split; [reflexivity|]. split; [exact E | exact H].
+  Qed.
+
+  Lemma aso_shape : forall v11 c r,
+    x_high c = false -> x_low c = false -> xml_char v11 c = true -> c < 65536 ->
+    exists its e, attr_step F v11 c r = (its, false) /\ payload its = Ok e /\
+                  shape lit_attr v11 c e = true.
+  Proof.
+    intros v11 c r Hh Hl Hx Hc. unfold attr_step. destruct (p_range v11 c) eqn:Er.
+    - destruct (big_shape v11 c r Er Hh Hl Hx Hc) as (its & e & A & B & D & _). exists its, e. auto.
+    - assert (Hle : c <= sp_last v11) by (unfold p_range in Er; lia).
+      pose proof (sweep _ _ (sweep_attr v11) c Hle) as H. unfold chk_attr in H.
+      rewrite Er, Hx in H. cbn [negb orb] in H. unfold ats, attr_step in H. rewrite Er in H.
+      destruct (negb (p_attribute v11 c)) eqn:Ec; cbn [fst] in H.
+      + eexists. eexists. split; [reflexivity|]. unfold F. cbn [f_unit fam_other]. rewrite payload_o_unit.
+        split; [reflexivity|]. destruct (rep c); [exact H | apply ref_shape; auto].
+      + eexists. rewrite <- default_attr_escape_same in H.
+        destruct (payload (default_attr_escape F v11 c)) as [e| |] eqn:E; try discriminate.
+        exists e. split; [reflexivity|]. split; [exact E | exact H].
+  Qed.
+
+  (* a surrogate pair: both units, or one reference to the code point *)
+  Lemma big_pair : forall v11 hi lo r, x_high hi = true -> x_low lo = true ->
+    exists its e, normalized_big F v11 hi (lo :: r) = (its, true) /\ payload its = Ok e /\
+                  (e = [hi; lo] \/ e = charref (decode_pair hi lo)).
+  Proof.
+    intros v11 hi lo r Hh Hl. destruct (sur_high v11 hi (or_introl Hh)) as (A1 & A2 & _).
+    unfold normalized_big. rewrite A2. unfold F. cbn [f_at fam_other]. unfold o_at, o_at_gen.
+    change (is_high hi) with (x_high hi). change (is_low lo) with (x_low lo). rewrite Hh, Hl.
+    destruct (rep (decode_pair hi lo)).
+    - eexists. exists [hi; lo]. split; [reflexivity|]. split; [apply payload_o_code_pair; assumption | left; reflexivity].
+    - eexists. exists (charref (decode_pair hi lo)). split; [reflexivity|]. split.
+      + unfold o_charref. cbn [payload]. rewrite app_nil_r. reflexivity.
+      + right. reflexivity.
+  Qed.
+
+  Lemma charref_okunits : forall v11 n, forallb (okunit v11) (charref n) = true.
+  Proof.
+    intros v11 n. unfold charref. cbn [forallb]. rewrite forallb_app, (digits_ok v11 _ (decimal_digits n)).
+    destruct v11; reflexivity.
+  Qed.
+
+  Lemma scan_content_pairref : forall v11 hi lo rest f, x_high hi = true -> x_low lo = true ->
+    scan_content v11 (S f) false (charref (decode_pair hi lo) ++ rest) =
+    option_map (fun t => hi :: lo :: t) (scan_content v11 f false rest).
+  Proof.
+    intros v11 hi lo rest f Hh Hl. unfold charref. cbn [app scan_content]. change (38 =? 38) with true. cbv iota.
+    rewrite <- app_assoc. cbn [app]. rewrite parse_ref_charref by (apply decode_char; assumption).
+    rewrite units_of_decode by assumption. destruct (scan_content v11 f false rest); reflexivity.
+  Qed.
+
+  Lemma scan_attr_pairref : forall v11 hi lo rest f, x_high hi = true -> x_low lo = true ->
+    scan_attr v11 (S f) (charref (decode_pair hi lo) ++ rest) =
+    option_map (fun t => hi :: lo :: t) (scan_attr v11 f rest).
+  Proof.
+    intros v11 hi lo rest f Hh Hl. unfold charref. cbn [app scan_attr]. change (38 =? 38) with true. cbv iota.
+    rewrite <- app_assoc. cbn [app]. rewrite parse_ref_charref by (apply decode_char; assumption).
+    rewrite units_of_decode by assumption. destruct (scan_attr v11 f rest); reflexivity.
+  Qed.
+
+  Definition small (s : list N) : bool := forallb (fun c => c <? 65536) s.
+
+  Lemma cso_pair : forall v11 hi lo r, x_high hi = true -> x_low lo = true ->
+    exists its e, content_step F v11 hi (lo :: r) = (its, true) /\ payload its = Ok e /\
+                  (e = [hi; lo] \/ e = charref (decode_pair hi lo)).
+  Proof.
+    intros v11 hi lo r Hh Hl. destruct (sur_high v11 hi (or_introl Hh)) as (A1 & _ & _).
+    unfold content_step. rewrite A1. apply big_pair; assumption.
+  Qed.
+
+  Lemma content_main_other : forall v11 s, wf_text v11 s = true -> small s = true ->
+    exists bs, payload (write_content F v11 s) = Ok bs /\ forallb (okunit v11) bs = true /\
+               forall f, (length bs < f)%nat -> scan_content v11 f false bs = Some s.
+  Proof.
+    intros v11. apply (wf_text_ind' v11 (fun s => small s = true ->
+      exists bs, payload (write_content F v11 s) = Ok bs /\ forallb (okunit v11) bs = true /\
+                 forall f, (length bs < f)%nat -> scan_content v11 f false bs = Some s)).
+    - intros _. exists []. repeat split; try reflexivity. intros [|f] Hf; [cbn in Hf; lia | reflexivity].
+    - intros hi lo r Hh Hl Hw IH Hsm. unfold small in Hsm. cbn [forallb] in Hsm.
+      apply andb_true_iff in Hsm. destruct Hsm as [_ Hsm]. apply andb_true_iff in Hsm. destruct Hsm as [_ Hsm].
+      destruct (IH Hsm) as (bs & Hp & Hok & Hs).
+      destruct (cso_pair v11 hi lo r Hh Hl) as (its & e & St & Pl & He).
+      assert (W : write_content F v11 (hi :: lo :: r) = its ++ write_content F v11 r).
+      { unfold write_content. cbn [char_loop]. rewrite St. reflexivity. }
+      exists (e ++ bs). rewrite W, payload_app, Pl, Hp. split; [reflexivity|].
+      destruct (sur_high v11 hi (or_introl Hh)) as (_ & _ & A3).
+      destruct (sur_high v11 lo (or_intror Hl)) as (_ & _ & B3).
+      destruct He as [-> | ->].
+      + split; [cbn [app forallb]; rewrite A3, B3, Hok; reflexivity|].
+        intros [|f] Hf; cbn [app length] in Hf; [clear -Hf; lia|]. cbn [app].
+        rewrite scan_content_pair by assumption. rewrite Hs by (clear -Hf; lia). reflexivity.
+      + split; [rewrite forallb_app, charref_okunits, Hok; reflexivity|].
+        intros [|f] Hf; [clear -Hf; lia|]. rewrite scan_content_pairref by assumption.
+        rewrite Hs; [reflexivity|]. rewrite app_length in Hf. unfold charref in Hf. cbn [length] in Hf.
+        clear -Hf. lia.
+    - intros c r Hh Hl Hx Hw IH Hsm. unfold small in Hsm. cbn [forallb] in Hsm.
+      apply andb_true_iff in Hsm. destruct Hsm as [Hc Hsm].
+      destruct (IH Hsm) as (bs & Hp & Hok & Hs).
+      destruct (cso_shape v11 c r Hh Hl Hx ltac:(lia)) as (its & e & St & Pl & Hsh).
+      assert (W : write_content F v11 (c :: r) = its ++ write_content F v11 r).
+      { unfold write_content. cbn [char_loop]. rewrite St. reflexivity. }
+      exists (e ++ bs). rewrite W, payload_app, Pl, Hp. repeat split.
+      + rewrite forallb_app, Hok, (shape_okunits _ _ _ _ (lit_content_ok v11) Hsh). reflexivity.
+      + intros [|f] Hf; [clear -Hf; lia|]. rewrite (scan_content_shape _ _ _ _ _ Hsh Hok).
+        rewrite Hs; [reflexivity|]. rewrite app_length in Hf.
+        assert (length e <> 0)%nat.
+        { apply shape_cases in Hsh. destruct Hsh as [[-> _]|[[_ ->]|[-> _]]]; try discriminate.
+          unfold ent_of. destruct (c =? 60), (c =? 62), (c =? 38); discriminate. }
+        clear -Hf H. lia.
+  Qed.
+
+  Theorem content_roundtrip_other : forall v11 s, wf_text v11 s = true -> small s = true ->
+    exists bs, payload (write_content F v11 s) = Ok bs /\ parse_content v11 bs = Some s.
+  Proof.
+    intros v11 s Hw Hsm. destruct (content_main_other v11 s Hw Hsm) as (bs & Hp & Hok & Hs).
+    exists bs. split; [exact Hp|]. unfold parse_content. rewrite (eol_norm_id _ _ Hok). apply Hs. lia.
+  Qed.
+
+  Lemma aso_pair : forall v11 hi lo r, x_high hi = true -> x_low lo = true ->
+    exists its e, attr_step F v11 hi (lo :: r) = (its, true) /\ payload its = Ok e /\
+                  (e = [hi; lo] \/ e = charref (decode_pair hi lo)).
+  Proof.
+    intros v11 hi lo r Hh Hl. destruct (sur_high v11 hi (or_introl Hh)) as (A1 & _ & _).
+    unfold attr_step. rewrite A1. apply big_pair; assumption.
+  Qed.
+
+  Lemma attr_main_other : forall v11 s, wf_text v11 s = true -> small s = true ->
+    exists bs, payload (write_attr_string F v11 s) = Ok bs /\ forallb (okunit v11) bs = true /\
+               forall f, (length bs < f)%nat -> scan_attr v11 f bs = Some s.
+  Proof.
+    intros v11. apply (wf_text_ind' v11 (fun s => small s = true ->
+      exists bs, payload (write_attr_string F v11 s) = Ok bs /\ forallb (okunit v11) bs = true /\
+                 forall f, (length bs < f)%nat -> scan_attr v11 f bs = Some s)).
+    - intros _. exists []. repeat split; try reflexivity. intros [|f] Hf; [cbn in Hf; lia | reflexivity].
+    - intros hi lo r Hh Hl Hw IH Hsm. unfold small in Hsm. cbn [forallb] in Hsm.
+      apply andb_true_iff in Hsm. destruct Hsm as [_ Hsm]. apply andb_true_iff in Hsm. destruct Hsm as [_ Hsm].
+      destruct (IH Hsm) as (bs & Hp & Hok & Hs).
+      destruct (aso_pair v11 hi lo r Hh Hl) as (its & e & St & Pl & He).
+      assert (W : write_attr_string F v11 (hi :: lo :: r) = its ++ write_attr_string F v11 r).
+      { unfold write_attr_string. cbn [char_loop]. rewrite St. reflexivity. }
+      exists (e ++ bs). rewrite W, payload_app, Pl, Hp. split; [reflexivity|].
+      destruct (sur_high v11 hi (or_introl Hh)) as (_ & _ & A3).
+      destruct (sur_high v11 lo (or_intror Hl)) as (_ & _ & B3).
+      destruct He as [-> | ->].
+      + split; [cbn [app forallb]; rewrite A3, B3, Hok; reflexivity|].
+        intros [|f] Hf; cbn [app length] in Hf; [clear -Hf; lia|]. cbn [app].
+        rewrite scan_attr_pair by assumption. rewrite Hs by (clear -Hf; lia). reflexivity.
+      + split; [rewrite forallb_app, charref_okunits, Hok; reflexivity|].
+        intros [|f] Hf; [clear -Hf; lia|]. rewrite scan_attr_pairref by assumption.
+        rewrite Hs; [reflexivity|]. rewrite app_length in Hf. unfold charref in Hf. cbn [length] in Hf.
+        clear -Hf. lia.
+    - intros c r Hh Hl Hx Hw IH Hsm. unfold small in Hsm. cbn [forallb] in Hsm.
+      apply andb_true_iff in Hsm. destruct Hsm as [Hc Hsm].
+      destruct (IH Hsm) as (bs & Hp & Hok & Hs).
+      destruct (aso_shape v11 c r Hh Hl Hx ltac:(lia)) as (its & e & St & Pl & Hsh).
+      assert (W : write_attr_string F v11 (c :: r) = its ++ write_attr_string F v11 r).
+      { unfold write_attr_string. cbn [char_loop]. rewrite St. reflexivity. }
+      exists (e ++ bs). rewrite W, payload_app, Pl, Hp. repeat split.
+      + rewrite forallb_app, Hok, (shape_okunits _ _ _ _ (lit_attr_ok v11) Hsh). reflexivity.
+      + intros [|f] Hf; [clear -Hf; lia|]. rewrite (scan_attr_shape _ _ _ _ _ Hsh).
+        rewrite Hs; [reflexivity|]. rewrite app_length in Hf.
+        assert (length e <> 0)%nat.
+        { apply shape_cases in Hsh. destruct Hsh as [[-> _]|[[_ ->]|[-> _]]]; try discriminate.
+          unfold ent_of. destruct (c =? 60), (c =? 62), (c =? 38); discriminate. }
+        clear -Hf H. lia.
+  Qed.
+
+  Theorem attr_roundtrip_other : forall v11 s, wf_text v11 s = true -> small s = true ->
+    exists bs, payload (write_attr_string F v11 s) = Ok bs /\ parse_attr v11 bs = Some s.
+  Proof.
+    intros v11 s Hw Hsm. destruct (attr_main_other v11 s Hw Hsm) as (bs & Hp & Hok & Hs).
+    exists bs. split; [exact Hp|]. unfold parse_attr. rewrite (eol_norm_id _ _ Hok). apply Hs. lia.
+  Qed.
+End OtherFamily.
+
+(* the two "other" encodings the factory selects *)
+Lemma rep_ascii_low : forall c, c < 128 -> rep_ascii c = true.
+Proof. intros c H. unfold rep_ascii. lia. Qed.
+Lemma rep_latin1_low : forall c, c < 128 -> rep_latin1 c = true.
+Proof. intros c H. unfold rep_latin1. lia. Qed.
+
+Definition content_roundtrip_ascii := content_roundtrip_other rep_ascii rep_ascii_low.
+Definition attr_roundtrip_ascii := attr_roundtrip_other rep_ascii rep_ascii_low.
+Definition content_roundtrip_latin1 := content_roundtrip_other rep_latin1 rep_latin1_low.
+Definition attr_roundtrip_latin1 := attr_roundtrip_other rep_latin1 rep_latin1_low.
+
+(* [small] is needed: the model does not bound a code unit; a "unit" above 65535 that is a Char is
+   accepted by wf_text, written as one reference and read back as a surrogate pair *)
+Theorem content_roundtrip_other_big_refuted :
+  wf_text false [65536] = true /\
+  payload (write_content (fam_other rep_ascii) false [65536]) = Ok (charref 65536) /\
+  parse_content false (charref 65536) = Some [55296; 56320].
+Proof. vm_compute. repeat split; reflexivity. Qed.
